@@ -58,6 +58,8 @@ class Adapter(object):
 
   def _closed(self, w):
     self.closes += 1
+    if self.closes < 5:
+      w.send_fast(b"\x5a")      # a close handler that still tries to say something (90 = Late in Worker.tla)
 
   def _drain(self):
     while self.loop._pending_commands:
